@@ -304,6 +304,8 @@ class Gen(object):
                 op["values"] = self.value_for(base if isinstance(base, str) else None)
         elif self.chance(0.8):
             op["values"] = self.value_for(None)
+        if "values" in op and self.chance(0.06):
+            op["value"] = op.pop("values")      # the deprecated keyword of the constructor
         oid = self.oid()
         if oid is not None:
             op["oid"] = oid
@@ -558,6 +560,18 @@ class Gen(object):
 
     def g_set_attr(self):
         x = self.pick(self.nodes())
+        docs = self.U.of_kind("doc")
+        if docs and (x is None or self.chance(0.12)):
+            d = self.pick(docs)
+            attr = self.pick(["author", "version", "date", "date", "repository"])
+            if attr == "date":
+                v = self.pick(["2020-01-02", {"date": "2019-03-04"}, "", None]) if not self.fault() \
+                    else self.pick(["2020-13-45", "yesterday", 5, "01.02.2020"])
+            elif attr == "repository":
+                v = self.pick(REPOS + [None, ""])
+            else:
+                v = self.pick(["me", "", None, "v2", 3])
+            return {"op": "set_attr", "x": self.ref(d), "attr": attr, "v": v}
         if x is None:
             return None
         if kind_of(x) == "sec":
@@ -714,6 +728,14 @@ class Gen(object):
         if not self.room(len(self.U.subtree(x))):
             return None
         return {"op": "merge", "t": self.ref(t), "x": self.ref(x), "strict": self.chance(0.5)}
+
+    def g_merge_self(self):
+        """sec.merge() without an argument: resolve the Section's own stored link / include."""
+        linked = [s for s in self.secs() if s.link is not None or s.include is not None]
+        x = self.pick(linked) if (linked and not self.fault()) else self.pick(self.secs())
+        if x is None or not self.room(8):
+            return None
+        return {"op": "merge_self", "x": self.ref(x)}
 
     def g_set_link(self):
         secs = [s for s in self.secs() if s.parent is not None]
